@@ -1,5 +1,5 @@
 (* C17 model runner.  One case per line:
-   <id> T|A|W|V|U|u|X <pred>    (V: auth client, token for the request's own scope cached: same re-send structure as A) <maxretry> <minw> <maxw> <tbl> <dflt> <cancel> <bodykind> <hexbody> <script> <opts>
+   <id> T|A|W|V|U|u|X|Y|y <pred>    (V: auth client, token for the request's own scope cached: same re-send structure as A) <maxretry> <minw> <maxw> <tbl> <dflt> <cancel> <bodykind> <hexbody> <script> <opts>
         opts    harness-only options the code under test must not depend on (u = ContentLength left
                 unknown, method=..., preauth = auth client stack with Authorization preset); ignored here
         tbl     comma separated integers, or -
@@ -8,6 +8,9 @@
         pred    - (DefaultPredicate) | <code><R|S|F>,...;d<R|S|F>;e<R|S|F>  (status table; other statuses; transport errors)
         script  beh;beh;... or -   beh = <out>/<read>/<lat>  read = * | <k>
                 out = S<code>:<hexRetryAfter>:<chal> | E<isnet><timeout><temporary>[:shape] | TO (=E111) | ER (=E000)
+   <id> Q <pred> ... <script> <opts> <G|P<hexform>> <tokenscript>     (auth client, token request modelled)
+   <id> I <hexstring>                 strconv.ParseInt(s, 10, 64), error ignored
+   <id> Z <pred> ... <script> <opts> <G|P<hexform>> <tokenscript>     (blob push, auth client, token requests modelled)
    <id> D <pred> <maxretry> <minw> <maxw> <tbl> <dflt> <attempt> <out>
    <id> B <D|P> <maxretry> <minw> <maxw> <base> <fnum> <fden> <jnum> <jden> <attempt> <out> <seen>
         seen    STOP | FAIL | PANIC | W<d> *)
@@ -79,6 +82,7 @@ let show_result (r : result) : string =
   | RResp (c, _) -> "RESP" ^ string_of_z c
   | RErr (ne, tmo, tmp) -> Printf.sprintf "EERR%d%d%d" (Bool.to_int ne) (Bool.to_int tmo) (Bool.to_int tmp)
   | RPredErr -> "EPRED"
+  | RTokenResp c -> "ETOKEN" ^ string_of_z c
   | RCtx -> "ECTX"
   | RPanic -> "PANIC"
   | RNotRewindable -> "ENOTREWINDABLE"
@@ -132,7 +136,7 @@ let guarded = exp_backoff_guarded
 let () =
   iter_lines (fun l ->
     match split_ws l with
-    | [id; ("T" | "A" | "W" | "V" | "U" | "u" | "X") as op; pred; mr; mn; mx; tbl; dflt; cn; kind; body; script; _opts] ->
+    | [id; ("T" | "A" | "W" | "V" | "U" | "u" | "X" | "Y" | "y") as op; pred; mr; mn; mx; tbl; dflt; cn; kind; body; script; _opts] ->
       let p = table_policy (parse_pred pred) (z_of_string mr) (z_of_string mn) (z_of_string mx)
           (List.map z_of_string (split_on ',' tbl)) (z_of_string dflt) in
       (* M/m: manifest push (type without subject) through an auth / another client;
@@ -149,7 +153,18 @@ let () =
         | None -> bd0 in
       let sc = List.map parse_beh (split_on ';' script) in
       let cn = parse_cancel cn in
-      if op = "U" || op = "u" || op = "X" then begin
+      if op = "Y" || op = "y" then begin
+        (* blobStore.Mount declined by the registry (202): the same POST/PUT protocol, the PUT reads
+           from an io.ReadCloser, i.e. a body that cannot be replayed *)
+        let bd = { bk = KOneShot; bdata = bd.bdata } in
+        let u = blob_push_gen (op = "Y") false p cn bd sc in
+        let atts a = show_attempts_list bd.bdata a in
+        let put1, put2 = match u.u_put with
+          | Some a -> atts (attempts a.a_first), atts (attempts a.a_second)
+          | None -> "-", "-" in
+        Printf.printf "%s %s end=%s post=%s|%s put=%s|%s\n" id (show_result u.u_res) (string_of_z u.u_time)
+          (atts (attempts u.u_post.a_first)) (atts (attempts u.u_post.a_second)) put1 put2
+      end else if op = "U" || op = "u" || op = "X" then begin
         (* blob push through the Repository: U = auth client, u = plain retrying client,
            X = auth client whose cache already holds the token for the push's scope *)
         let u = blob_push_gen (op <> "u") (op = "X") p cn bd sc in
@@ -168,6 +183,55 @@ let () =
         Printf.printf "%s %s end=%s first=%s second=%s third=%s\n" id (show_result o.a_res) (string_of_z o.a_time)
           (show_attempts bd.bdata o.a_first) (show_attempts bd.bdata o.a_second) (show_attempts bd.bdata o.a_third)
       end
+    | [id; "Q"; pred; mr; mn; mx; tbl; dflt; cn; kind; body; script; _opts; tokbody; tokscript] ->
+      (* auth client with the token request spelled out: tokbody = G (distribution GET, no body)
+         or P<hexform> (OAuth2 POST), tokscript = the token service's answers *)
+      let p = table_policy (parse_pred pred) (z_of_string mr) (z_of_string mn) (z_of_string mx)
+          (List.map z_of_string (split_on ',' tbl)) (z_of_string dflt) in
+      let bd = if kind.[0] = 'M'   (* manifest push through the auth client: buffered *)
+        then manifest_push_body true { bk = parse_kind (String.sub kind 1 (String.length kind - 1)); bdata = str_of_hex body }
+        else { bk = parse_kind kind; bdata = str_of_hex body } in
+      let tb = if tokbody.[0] = 'P'
+        then { bk = KReplay; bdata = str_of_hex (String.sub tokbody 1 (String.length tokbody - 1)) }
+        else { bk = KNone; bdata = [] } in
+      let sc = List.map parse_beh (split_on ';' script) in
+      let tsc = List.map parse_beh (split_on ';' tokscript) in
+      let o = auth_do_tok p (parse_cancel cn) bd sc tb tsc in
+      Printf.printf "%s %s end=%s first=%s token=%s second=%s\n" id (show_result o.ak_res) (string_of_z o.ak_time)
+        (show_attempts bd.bdata o.ak_first) (show_attempts tb.bdata o.ak_token) (show_attempts bd.bdata o.ak_second)
+    | [id; "I"; h] -> Printf.printf "%s %s\n" id (string_of_z (parse_int64 (str_of_hex h)))
+    | [id; "w"; pred; mr; mn; mx; tbl; dflt; cn; kind; body; script; _opts; tokbody; tokscript] ->
+      (* auth client with a warm Bearer cache (other scope key), token request of the third send modelled *)
+      let p = table_policy (parse_pred pred) (z_of_string mr) (z_of_string mn) (z_of_string mx)
+          (List.map z_of_string (split_on ',' tbl)) (z_of_string dflt) in
+      let bd = { bk = parse_kind kind; bdata = str_of_hex body } in
+      let tb = if tokbody.[0] = 'P'
+        then { bk = KReplay; bdata = str_of_hex (String.sub tokbody 1 (String.length tokbody - 1)) }
+        else { bk = KNone; bdata = [] } in
+      let sc = List.map parse_beh (split_on ';' script) in
+      let tsc = List.map parse_beh (split_on ';' tokscript) in
+      let o = auth_do_tokw_at p (parse_cancel cn) bd sc tb tsc Z0 in
+      Printf.printf "%s %s end=%s first=%s second=%s token=%s third=%s\n" id (show_result o.aw_res) (string_of_z o.aw_time)
+        (show_attempts bd.bdata o.aw_first) (show_attempts bd.bdata o.aw_second) (show_attempts tb.bdata o.aw_token)
+        (show_attempts bd.bdata o.aw_third)
+    | [id; "Z"; pred; mr; mn; mx; tbl; dflt; cn; kind; body; script; _opts; tokbody; tokscript] ->
+      (* blob push through the auth client, token requests modelled *)
+      let p = table_policy (parse_pred pred) (z_of_string mr) (z_of_string mn) (z_of_string mx)
+          (List.map z_of_string (split_on ',' tbl)) (z_of_string dflt) in
+      let bd = { bk = parse_kind kind; bdata = str_of_hex body } in
+      let tb = if tokbody.[0] = 'P'
+        then { bk = KReplay; bdata = str_of_hex (String.sub tokbody 1 (String.length tokbody - 1)) }
+        else { bk = KNone; bdata = [] } in
+      let sc = List.map parse_beh (split_on ';' script) in
+      let tsc = List.map parse_beh (split_on ';' tokscript) in
+      let u = blob_push_tok true p (parse_cancel cn) bd sc tb tsc in
+      let atts a = show_attempts_list bd.bdata a in
+      let put1, put2, ptok = match u.uk_put with
+        | Some a -> atts (attempts a.ak_first), atts (attempts a.ak_second), attempts a.ak_token
+        | None -> "-", "-", [] in
+      Printf.printf "%s %s end=%s post=%s|%s put=%s|%s tok=%s\n" id (show_result u.uk_res) (string_of_z u.uk_time)
+        (show_attempts_list [] (attempts u.uk_post.ak_first)) (show_attempts_list [] (attempts u.uk_post.ak_second)) put1 put2
+        (show_attempts_list tb.bdata (attempts u.uk_post.ak_token @ ptok))
     | [id; "D"; pred; mr; mn; mx; tbl; dflt; att; out] ->
       let p = table_policy (parse_pred pred) (z_of_string mr) (z_of_string mn) (z_of_string mx)
           (List.map z_of_string (split_on ',' tbl)) (z_of_string dflt) in
